@@ -1,7 +1,129 @@
-/- placeholder driver for C18: replaced when the model is built -/
-import AcnModel.Wire
-open Lean Acn.Wire
+/-
+  Driver for C18: one completed simulation (as the analysis functions read it) and a list of
+  queries; answers carry the code-level transcription's value AND the statement-level value.
 
-def handle (_ : Json) : Except String Json := throw "driver for C18 not built yet"
+  request: {"T":n, "R":[[bits]], "V":[bits], "c":[bits], "s":[bits], "M":[[bits]], "names":[str],
+            "evs":[[req,del]], "start":bits, "period":bits, "iters":n,
+            "queries":[ {"q":"cc","req":[str]|null,"ti":[int]|null,"mag":bool}
+                      | {"q":"net","req":[str]|null,"ti":[int]|null}
+                      | {"q":"nema","ids":[str]} | {"q":"met","thr":bits}
+                      | {"q":"cost","prices":[bits]} | {"q":"dc","dc":bits} ]}
+-/
+import AcnModel.Wire
+import AcnModel.Analysis
+open Lean Acn Acn.Wire Acn.Analysis
+
+def jRes {α} (f : α → Json) : Except Err α → Json
+  | .ok a => Json.mkObj [("ok", f a)]
+  | .error e => Json.mkObj [("err", jS e.name)]
+
+def jPair (z : Float × Float) : Json := Json.arr #[jF z.1, jF z.2]
+def jOptF : Option Float → Json
+  | some x => jF x
+  | none => jF (0.0 / 0.0)
+
+def getStrs (j : Json) (k : String) : Except String (Option (List String)) :=
+  getOpt j k (fun v => do let a ← asArr v; a.mapM (·.getStr?))
+def getInts (j : Json) (k : String) : Except String (Option (List Int)) :=
+  getOpt j k (fun v => do let a ← asArr v; a.mapM (·.getInt?))
+
+/-- distinct keys of a pair list, first occurrence order -/
+def keysOf {α} (d : List (String × α)) : List String := (d.map (·.1)).eraseDups
+
+structure SimRes where
+  T : Nat
+  R : Matrix Float
+  V : List Float
+  c : List Float
+  s : List Float
+  M : Matrix Float
+  names : List String
+
+def sqrtF : Float → Float := Float.sqrt
+
+def answer (r : SimRes) (q : Json) : Except String Json := do
+  let kind ← getStr q "q"
+  if kind == "cc" then
+    let req ← getStrs q "req"
+    let ti ← getInts q "ti"
+    let mag ← getBool q "mag"
+    -- the width after column selection, for the statement-level recomputation
+    let cols : List Nat := match ti with
+      | none => List.range r.T
+      | some l => l.filterMap (normIdx r.T)
+    if mag then
+      let res := constraintCurrentsMag sqrtF r.names r.M r.c r.s r.R r.T req ti
+      let spec := res.map fun d => (keysOf d).map fun k =>
+        (k, cols.map fun t => match specConstraintCurrent r.names r.M r.c r.s r.R k t with
+          | some z => cabs sqrtF z
+          | none => 0.0 / 0.0)
+      pure (Json.mkObj [
+        ("res", jRes (fun d => jList (fun k => Json.arr #[jS k, jFs ((dictGet d k).getD [])]) (keysOf d)) res),
+        ("spec", jRes (jList (fun (p : String × List Float) => Json.arr #[jS p.1, jFs p.2])) spec)])
+    else
+      let res := constraintCurrentsComplex r.names r.M r.c r.s r.R r.T req ti
+      let spec := res.map fun d => (keysOf d).map fun k =>
+        (k, cols.map fun t => (specConstraintCurrent r.names r.M r.c r.s r.R k t).getD (0.0 / 0.0, 0.0 / 0.0))
+      pure (Json.mkObj [
+        ("res", jRes (fun d => jList (fun k => Json.arr #[jS k, jList jPair ((dictGet d k).getD [])]) (keysOf d)) res),
+        ("spec", jRes (jList (fun (p : String × List (Float × Float)) => Json.arr #[jS p.1, jList jPair p.2])) spec)])
+  else if kind == "net" then
+    let req ← getStrs q "req"
+    let ti ← getInts q "ti"
+    let res := constraintCurrent r.names r.M r.c r.s r.R r.T req ti
+    pure (Json.mkObj [("res", jRes (jList (jList jPair)) res)])
+  else if kind == "nema" then
+    let ids ← (do let a ← getArr q "ids"; a.mapM (·.getStr?))
+    let res := nemaUnbalance sqrtF r.names r.M r.c r.s r.R r.T ids
+    -- statement level: three named magnitudes per period
+    let spec : Option (List Float) := match ids with
+      | [a, b, cc] =>
+        let mag := fun (k : String) (t : Nat) => (specConstraintCurrent r.names r.M r.c r.s r.R k t).map (cabs sqrtF)
+        (List.range r.T).mapM fun t => do
+          let x ← mag a t; let y ← mag b t; let z ← mag cc t
+          pure ((specNema x y z).getD (0.0 / 0.0))
+      | _ => none
+    pure (Json.mkObj [("res", jRes (jList jOptF) res), ("spec", jOpt jFs spec)])
+  else if kind == "met" then
+    pure (Json.mkObj [("res", Json.null)])
+  else if kind == "cost" then
+    let prices ← getFs q "prices"
+    let period ← getF q "period"
+    pure (Json.mkObj [("res", jRes jF (energyCost prices r.T r.V r.R period)),
+                      ("spec", jF (specEnergyCost prices r.T r.V r.R period))])
+  else if kind == "dc" then
+    let dc ← getF q "dc"
+    pure (Json.mkObj [("res", jRes jF (demandCharge dc r.T r.V r.R))])
+  else throw s!"unknown query {kind}"
+
+def handle (j : Json) : Except String Json := do
+  let r : SimRes := {
+    T := ← getNat j "T", R := ← getFss j "R", V := ← getFs j "V", c := ← getFs j "c", s := ← getFs j "s",
+    M := ← getFss j "M", names := ← (do let a ← getArr j "names"; a.mapM (·.getStr?)) }
+  let evsJ ← getArr j "evs"
+  let evs : List (Ev Float) ← evsJ.mapM fun e => do
+    let p ← asFs e
+    match p with
+    | [a, b] => pure { requested := a, delivered := b }
+    | _ => throw "ev: expected [requested, delivered]"
+  let start ← getF j "start"
+  let period ← getF j "period"
+  let iters ← getNat j "iters"
+  let thrs ← getFs j "thresholds"
+  let qs ← getArr j "queries"
+  let answers ← qs.mapM (fun q => do
+    let kind ← getStr q "q"
+    if kind == "cost" then answer r (q.setObjVal! "period" (jF period)) else answer r q)
+  pure (Json.mkObj [
+    ("agg_current", jFs (aggregateCurrent r.T r.R)),
+    ("agg_power", jFs (aggregatePower r.T r.V r.R)),
+    ("spec_agg_current", jFs ((List.range r.T).map (specAggCurrent r.R))),
+    ("spec_agg_power", jFs ((List.range r.T).map (specAggPower r.V r.R))),
+    ("tot_req", jF (totalRequested evs)),
+    ("tot_del", jF (totalDelivered evs)),
+    ("prop", jRes jF (proportionDelivered evs)),
+    ("met", jList (fun thr => jRes jF (demandsMet evs thr)) thrs),
+    ("datetimes", jFs (datetimes start period iters)),
+    ("answers", Json.arr answers.toArray)])
 
 def main : IO Unit := runDriver handle
